@@ -4,6 +4,8 @@ package main
 // inlined callees.  It must over-approximate what symbolic execution of the same code writes.
 
 import (
+	"fmt"
+	"os"
 	"go/types"
 	"strings"
 
@@ -282,7 +284,10 @@ func (x *Exec) loopModifies(fr *Frame, li *loopInfo) *modSet {
 
 // funcWrites summarises the writes of a whole function body (for inlined callees inside loops).
 func (x *Exec) funcWrites(fr *Frame, fn *ssa.Function, params map[*ssa.Parameter][]sroot, m *modSet, depth int) {
-	if depth > 4 || len(fn.Blocks) == 0 {
+	if depth > 8 || len(fn.Blocks) == 0 {
+		if envSet("GOVC_DEBUGWRITES") {
+			fmt.Fprintf(os.Stderr, "WRITES-ALL depth/body %s depth=%d\n", fn.String(), depth)
+		}
 		m.all = true
 		return
 	}
@@ -316,6 +321,9 @@ func (x *Exec) blockWritesEnv(fr *Frame, fn *ssa.Function, env *staticEnv, b *ss
 		switch t := in.(type) {
 		case *ssa.Store:
 			for _, r := range env.roots(t.Addr) {
+				if r.unknown && envSet("GOVC_DEBUGWRITES") {
+					fmt.Fprintf(os.Stderr, "WRITES-ALL unknown root in %s: store %s\n", fn.String(), t.String())
+				}
 				m.addRootWrites(r)
 			}
 		case *ssa.Call:
@@ -360,6 +368,22 @@ func (x *Exec) callWrites(fr *Frame, fn *ssa.Function, env *staticEnv, c *ssa.Ca
 		res.model.writes(x, env, c, m)
 	case ckContract:
 		if !res.fc.HasAssign {
+			// no frame clause: what the body may write, statically
+			if res.callee != nil && len(res.callee.Blocks) > 0 {
+				params := map[*ssa.Parameter][]sroot{}
+				args := c.Args
+				for i, p := range res.callee.Params {
+					if i < len(args) {
+						if _, isPtr := p.Type().Underlying().(*types.Pointer); isPtr {
+							params[p] = env.roots(args[i])
+						} else if st, isSl := p.Type().Underlying().(*types.Slice); isSl {
+							params[p] = env.sliceElemRoots(args[i], st.Elem())
+						}
+					}
+				}
+				x.funcWrites(fr, res.callee, params, m, depth+1)
+				return
+			}
 			m.all = true
 			return
 		}
@@ -378,6 +402,50 @@ func (x *Exec) callWrites(fr *Frame, fn *ssa.Function, env *staticEnv, c *ssa.Ca
 		}
 		x.funcWrites(fr, res.callee, params, m, depth+1)
 	default:
+		// a module function that is merely too large / too deep to inline is still analysed
+		if res.callee != nil && len(res.callee.Blocks) > 0 && strings.HasPrefix(funcPkgPath(res.callee), x.V.modPath) {
+			params := map[*ssa.Parameter][]sroot{}
+			args := c.Args
+			for i, p := range res.callee.Params {
+				if i < len(args) {
+					if _, isPtr := p.Type().Underlying().(*types.Pointer); isPtr {
+						params[p] = env.roots(args[i])
+					} else if st, isSl := p.Type().Underlying().(*types.Slice); isSl {
+						params[p] = env.sliceElemRoots(args[i], st.Elem())
+					}
+				}
+			}
+			x.funcWrites(fr, res.callee, params, m, depth+1)
+			return
+		}
+		if res.callee != nil {
+			switch res.callee.String() {
+			case "sort.Slice", "sort.SliceStable":
+				// reorders the elements of its first argument (an interface holding a slice)
+				if mi, ok := c.Args[0].(*ssa.MakeInterface); ok {
+					if st, ok := mi.X.Type().Underlying().(*types.Slice); ok {
+						for _, r := range env.sliceElemRoots(mi.X, st.Elem()) {
+							m.addRootWrites(r)
+						}
+						return
+					}
+				}
+			case "sort.Ints", "sort.Strings", "sort.Float64s":
+				if st, ok := c.Args[0].Type().Underlying().(*types.Slice); ok {
+					for _, r := range env.sliceElemRoots(c.Args[0], st.Elem()) {
+						m.addRootWrites(r)
+					}
+					return
+				}
+			}
+		}
+		if envSet("GOVC_DEBUGWRITES") {
+			name := "?"
+			if res.callee != nil {
+				name = res.callee.String()
+			}
+			fmt.Fprintf(os.Stderr, "WRITES-ALL in %s: call to %s\n", fn.String(), name)
+		}
 		m.all = true
 	}
 }
